@@ -5,6 +5,11 @@ Import ListNotations.
 Open Scope N_scope.
 
 (* ------------------------------------------------------------------ SHA-2: lengths and padding *)
+Lemma land255_byte : forall v, N.land v 255 < 256.
+Proof.
+  intro v. change 255 with (N.ones 8). rewrite N.land_ones. apply N.mod_lt. discriminate.
+Qed.
+
 Lemma be_bytes_length : forall n v, length (be_bytes n v) = n.
 Proof.
   induction n as [|k IH]; intro v; cbn [be_bytes].
@@ -16,7 +21,7 @@ Lemma be_bytes_bytes : forall n v, bytes (be_bytes n v).
 Proof.
   induction n as [|k IH]; intro v; cbn [be_bytes].
   - constructor.
-  - apply Forall_app. split; [apply IH | repeat constructor; lia].
+  - apply Forall_app. split; [apply IH | repeat constructor; apply land255_byte].
 Qed.
 
 Lemma st_bytes_length : forall c s, length (st_bytes c s) = (8 * wbytes c)%nat.
